@@ -94,8 +94,11 @@ CLAIMS['C02'] = dict(
          'accumulators, 1/4/5 fields, empty lines and segments, range bits by segment position; indices computed in mathematical integers); the tail of decode_regular (null '
          'sources, numeric names, non-string file, debug_id over debugId, source root, ignore list) against the statement; decode_common dispatch (sections -> index, '
          'x_facebook_sources -> Hermes, else regular); decode_index builds one section per entry of the `sections` array -- at the offset of the entry, with its url, and an embedded map of the kind the dispatch rule gives for the document of the entry -- keeps file and the RAM-bundle extension keys, and sorts the sections by offset; SourceMap::new returns a sorted permutation; the '
-         'sourceRoot joining rule (prefix_source / set_source_root / get_source against prefix_spec). PARTIAL: the six `let` lines that unpack the raw document are checked '
-         'textually only; decode_hermes is bounded only.',
+         'sourceRoot joining rule (prefix_source / set_source_root / get_source against prefix_spec). decode_regular as a whole (u10): the six bindings that unpack the raw document '
+         '(absent keys read as empty), the loop nest as a call of the function outlined and proved in u4, the tail verbatim -- decode_regular_post(rsm, res): Err exactly when the reference '
+         'reader refuses the document\'s mappings / rangeMappings over the document\'s own tables, otherwise the map holds the reference reading ordered by generated position, and the fields as the '
+         'statement lists them. decode_hermes (u16) and decode_common (u9) import that contract: a Hermes document decodes to decode_regular_post of the document without the metadata key plus one '
+         'function map per metadata entry; a document without `sections` / `x_facebook_sources` to decode_regular_post of itself.',
     note=_TB + 'serde_json assumed.',
     design_ref='DESIGN.md 5 C02')
 
@@ -258,9 +261,9 @@ NOT_COVERED = {
     'C08': ['the agreement theorems quantify over index maps whose sections are as the property describes them at every level of nesting (offsets strictly increasing, distinct generated positions inside a section, every moved token before the next offset); other index maps: bounded stand-ins index_flatten / index_nested', 'the hypotheses of the agreement lemma are the postconditions of executed functions; no concrete witness is constructed inside Verus (Vec values cannot be built in spec code), the stand-ins index_flatten / index_nested run the real functions on such inputs'],
     'C14': ['stability under serialise/decode: both halves are proved over the raw document (SourceMapHermes::as_raw_sourcemap writes x_facebook_sources verbatim, u22; decode_hermes keeps it and reads the function maps from it, u16); that serde carries x_facebook_sources through the JSON text is bounded (hermes_scope)'],
     'C01': ['the serde_json layer (writer and reader of the JSON text, serde attributes): bounded stand-in roundtrip'],
-    'C02': ['the six `let` lines of decode_regular that unpack the raw document (checked textually, not verified)', 'termination of the decode_index / decode_common recursion (bounded by serde_json)'],
+    'C02': ['the composition inside decode_regular is by contract: its loop nest is verified as the outlined function decode_regular__mappings_loop (u4) and called from the verified rest (u10) -- the extracted decode_regular differs from the real one exactly in that call standing for those statements (R-outline-call)', 'termination of the decode_index / decode_common recursion (bounded by serde_json)'],
     'C03': ['the serde skip_serializing_if attributes (that a None field writes no key): bounded stand-in raw_keys'],
-    'C07': ['decode_regular handing the two strings to the loop (the six `let` lines) and the serde layer: bounded stand-in rmi_roundtrip; the writer side (as_raw_sourcemap puts the reference rangeMappings value under its key, none without a range token) and the token-level round trip with flags are proved'],
+    'C07': ['the serde layer: bounded stand-in rmi_roundtrip; decode_regular handing the two strings of the document to the loop is proved (u10); the writer side (as_raw_sourcemap puts the reference rangeMappings value under its key, none without a range token) and the token-level round trip with flags are proved'],
     'C11': ['values of magnitude >= 2^62 (13-digit overflows) are only proved panic-free'],
     'C12': ['the JSON layer and the base64 reader themselves (uninterpreted functions of the bytes; their chunking independence is assumed): bounded stand-in header runs the real ones', 'SourceView-level and writer-side entry points (to_writer, to_data_url)'],
     'C13': ['that serde writes the raw document\'s fields under their keys (serde attributes): bounded stand-in root_setters'],
